@@ -99,7 +99,7 @@ def plan(tier, seed):
         for spec in ("HNM", "HLM"):
             for i in range(shards):
                 tasks.append({"engine": "enum", "n": n, "spec": spec, "index": i, "count": shards, "pairs": n <= 3, "maxlen": None if n <= 3 else 3})
-    examples = 40 if tier == "quick" else 500
+    examples = 100 if tier == "quick" else 500
     for i in range(nshards):
         tasks.append({"engine": "hyp", "examples": examples, "seed": seed * 1000 + i})
     return tasks
